@@ -220,6 +220,16 @@ impl Cfg {
         b.heap_limit(Some(limit));
         b.build()
     }
+    /// same, with BOM sniffing switched on (the default of ripgrep; every other harness searcher has it off so that
+    /// inputs are searched as they are): inputs that start with a byte-order mark are decoded first
+    pub fn searcher_bom(&self, mmap: bool) -> Searcher {
+        let mut b = self.builder();
+        b.bom_sniffing(true);
+        if mmap {
+            b.memory_map(unsafe { MmapChoice::auto() });
+        }
+        b.build()
+    }
     /// same, with memory maps enabled (used by the path strategy)
     pub fn searcher_mmap(&self) -> Searcher {
         let mut b = self.builder();
